@@ -8,6 +8,7 @@ import (
 	"fmt"
 	"math"
 	"sort"
+	"strings"
 
 	"github.com/openGemini/openGemini/engine/immutable"
 	"github.com/openGemini/openGemini/lib/util/lifted/influx/influxql"
@@ -173,14 +174,23 @@ func aggChecks(env *core.Env, sh *shard, model *sModel, c SCase, r *core.Rand, o
 			q.Where = "fi > -9000000000000000"
 			form = "filter"
 		}
-		// grouping is always by all tags: one group = one series, so that no cross-series
+		// one third of the pairs group by host only: a tag set then holds several series and the store-level
+		// AggTagSetCursor merges their partial results (seeded change C09-c lived there); drawn from a generator of
+		// its own so that the other draws of the check are what they were
+		if core.NewRand(uint64(q.TMin)*31+uint64(q.TMax)*17+uint64(i)*7+uint64(k)).Intn(3) == 0 && c.NSeries > 1 {
+			q.GroupTags = []string{"host"}
+		}
+		// otherwise grouping is by all tags: one group = one series, so that no cross-series
 		// merge operator of the query layer (not assembled in this world) is needed
 		// ORDER BY time DESC is not combined with calls here: at the store level it makes
 		// first/last answer from the other end, and whether the query layer compensates is
 		// outside this world (recorded in the cfg as not covered)
 		if v := checkAggPair(sh, q, form, out, prop, i, after, multiGen); v != nil {
 			v.Attrs["phase"] = "live"
-			if env != nil && !env.Replay && env.KnownID(v, out) != "" {
+			// listed findings are stepped over in replays and minimisation candidates too (the core takes the finding a
+			// replay file is about out of the list): otherwise a new class that follows a listed one in the same history
+			// never replays and is dropped as "unconfirmed" (the first() variant of C09-*-multi-series-tagset-chunk-time was)
+			if env != nil && env.KnownID(v, out) != "" {
 				continue // a listed finding: counted, stepped over
 			}
 			return v
@@ -193,6 +203,9 @@ func checkAggPair(sh *shard, q *sQuery, form string, out *core.Outcome, prop str
 	at := map[string]string{"after": after, "form": form, "fn": q.Call, "ftype": q.CallField}
 	if q.Call2 != "" {
 		at["calls"] = "2"
+	}
+	if len(q.GroupTags) == 1 && q.GroupTags[0] == "host" {
+		at["group"] = "host" // a tag set may hold several series (absent for the all-tags grouping: one series per group)
 	}
 	// plain select over the same filter, range and grouping
 	fields := []string{q.CallField}
@@ -241,6 +254,7 @@ func checkAggPair(sh *shard, q *sQuery, form string, out *core.Outcome, prop str
 		alts := sAggAlt
 		at["fn"], at["ftype"] = cl.fn, cl.field
 		got := map[sAggKey]sVal{}
+		gotTime := map[sAggKey]int64{}
 		for _, r := range rows {
 			if len(r.Vals) <= ci || r.Vals[ci] == nil {
 				continue
@@ -253,6 +267,7 @@ func checkAggPair(sh *shard, q *sQuery, form string, out *core.Outcome, prop str
 				return sviol(prop, "agg_duplicate_group", fmt.Sprintf("after op %d (%s): %s returned two rows for group %s bucket %d", i, after, q.text(), k.group, k.bucket), at)
 			}
 			got[k] = *r.Vals[ci]
+			gotTime[k] = r.Time
 		}
 		var keys []sAggKey
 		seen := map[sAggKey]bool{}
@@ -304,11 +319,60 @@ func checkAggPair(sh *shard, q *sQuery, form string, out *core.Outcome, prop str
 					continue
 				}
 				at["ooo_ahead"] = fmt.Sprint(oooAhead(sh, q.Mst))
+				if at["group"] == "host" {
+					at["series_in_group"] = seriesInGroup(sh, pq, k.group, cl.field)
+				}
+				if (cl.fn == "first" || cl.fn == "last") && q.Call2 == "" && q.Interval == 0 {
+					at["sel_time"] = selTimeAttr(plain[k.group], cl.field, g, gotTime[k], q.TMin, q.TMax)
+				}
 				return sviol(prop, "agg_mismatch", fmt.Sprintf("after op %d (%s): %s: aggregate = %s, function over the plain select's rows = %s\n  files: %s", i, after, desc, g, w, fileLayout(sh, q.Mst)), at)
 			}
 		}
 	}
 	return nil
+}
+
+// seriesInGroup (matcher attribute of a mismatch under GROUP BY host): "1" or ">1" series of the group have a value of
+// the field in the time range, found by the same plain select grouped by all tags.
+func seriesInGroup(sh *shard, pq *sQuery, group, field string) string {
+	aq := *pq
+	aq.GroupTags = nil
+	all, _, err := selectRows(sh, &aq)
+	if err != nil {
+		return "?"
+	}
+	n := 0
+	for key, rs := range all {
+		if !strings.HasPrefix(key, group) {
+			continue
+		}
+		for _, r := range rs {
+			if _, ok := r.Fields[field]; ok {
+				n++
+				break
+			}
+		}
+	}
+	if n > 1 {
+		return ">1"
+	}
+	return fmt.Sprint(n)
+}
+
+// selTimeAttr (matcher attribute of a first/last mismatch in a single-call statement without time bucket, where the
+// row's time is the selected point's time): does the plain select hold the returned value at the returned time?
+// "value_time": yes (a real point, just not the extreme one); "other_time_in_range" / "other_time_outside_range": the
+// value is returned with a time at which the group has no such value.
+func selTimeAttr(rows []sDumpRow, field string, got sVal, t, tmin, tmax int64) string {
+	for _, r := range rows {
+		if v, ok := r.Fields[field]; ok && r.Time == t && aggValEq(v, got) {
+			return "value_time"
+		}
+	}
+	if t < tmin || t > tmax {
+		return "other_time_outside_range"
+	}
+	return "other_time_in_range"
 }
 
 func countRows(plain map[string][]sDumpRow, k sAggKey, q *sQuery) int {
